@@ -39,6 +39,7 @@ struct context_t
     ml::params_t      params;
     splitter_t::splits_t splits;
     std::atomic<int>  calls[MAXP][MAXF];
+    std::atomic<int>  warm[MAXP][MAXF]; ///< what the callback was handed as the closest previous model (-1: nothing)
     std::atomic<int>  unknown_fold{0}, unknown_param{0}, bad_train{0};
     ml::result_t      result;
     bool              have_first = false;
@@ -91,6 +92,13 @@ void body(void* p)
             x = 0;
         }
     }
+    for (auto& row : c.warm)
+    {
+        for (auto& x : row)
+        {
+            x = -2;
+        }
+    }
     c.unknown_fold = c.unknown_param = c.bad_train = 0;
     tensor1d_t values(c.cfg.grid);
     for (tensor_size_t i = 0; i < values.size(); ++i)
@@ -99,7 +107,7 @@ void body(void* p)
     }
     param_spaces_t spaces;
     spaces.emplace_back("p", param_space_t::type::linear, values);
-    const auto callback = [&c](const indices_t& tr, const indices_t& vd, const tensor1d_cmap_t params, const std::any&,
+    const auto callback = [&c](const indices_t& tr, const indices_t& vd, const tensor1d_cmap_t params, const std::any& closest,
                                const logger_t&)
     {
         int pi = -1;
@@ -128,6 +136,8 @@ void body(void* p)
                 c.bad_train.fetch_add(1, RLX);
             }
             c.calls[pi][f].fetch_add(1, RLX);
+            const auto* prev = std::any_cast<int>(&closest);
+            c.warm[pi][f].store(prev != nullptr ? *prev : -1, RLX);
         }
         sched::point(pi * 8 + std::max(f, 0));
         return std::make_tuple(make_values(pi, std::max(f, 0), tr.size(), 0), make_values(pi, std::max(f, 0), vd.size(), 1),
@@ -246,6 +256,11 @@ bool after(void* p, const int* ch, const int n)
         trial_values.push_back(mean_valid);
         best_value = std::min(best_value, mean_valid);
         digest += "|" + std::to_string(pi);
+        // the inputs of the callback must not depend on the schedule either: the warm-start model it is handed
+        for (tensor_size_t f = 0; f < F; ++f)
+        {
+            digest += "w" + std::to_string(c.warm[pi][f].load(RLX));
+        }
     }
     for (int pi = 0; pi < c.cfg.grid; ++pi)
     {
